@@ -1,5 +1,6 @@
 """C11 - readers are position-faithful, stateless and agree with the underlying file."""
 
+import gc
 import hashlib
 import os
 import sys
@@ -214,6 +215,12 @@ def build_fixtures(scratch, rng):
                           {"format": "guppi", "squeeze": False}, "guppi",
                           {"lsb": bw < 0, "cls": pb.DualPolarizationSignal, "fc": 344.1875e6, "pol": "circular" if poln == "CIRC" else "linear",
                            "align": "center"}))
+    # the generic reader on the same GUPPI set, streams kept as (npol, nchan) with a per-component sideband mask
+    mask2d = np.array([[True, False, False, True], [False, False, True, True]])
+    fx.append(Fixture("w/guppi_usb.raw/bb_mask2d",
+                      (lambda n_: (lambda: pb.readers.BasebandReader(n_, format="guppi", squeeze=False, lower_sideband=mask2d.copy(),
+                                                                     signal_type=pb.Signal)))(gn),
+                      gn, {"format": "guppi", "squeeze": False}, "bb", {"lsb": mask2d}))
     for f in fx:
         f.load()
         for p in f.files:
@@ -669,9 +676,63 @@ class ReadArrayCounter:
 
 def workloads(ctx):
     q = ctx.tier == "quick"
-    nfx = 17
+    nfx = 18
     return [("reads", nfx * (12 if q else 240), wl_reads), ("positions", nfx * (1 if q else 8), wl_positions),
-            ("history", nfx * 4 * (1 if q else 12), wl_history), ("failpoints", nfx * (1 if q else 3), wl_failpoints)]
+            ("history", nfx * 4 * (1 if q else 12), wl_history), ("failpoints", nfx * (1 if q else 3), wl_failpoints),
+            ("relabelled", nfx * (1 if q else 6), wl_relabelled)]
+
+
+def wl_relabelled(ctx, idx, rng):
+    """A reader whose sample_rate / start_time were corrected through the public setters after construction (a nominal header
+    value replaced by the true one): positions and read labels follow the assigned values."""
+    fx = ctx.fixtures[idx % len(ctx.fixtures)]
+    o = "positions"
+    with probes.quiet():
+        r = fx.make_reader()
+        _ = (r.dt, r.stop_time, r.time_length, len(r), r.time_at(1))
+        new_rate = r.sample_rate * float(gen.pick(rng, [2.0, 0.5, 1.0009765625]))
+        new_start = r.start_time + float(rng.uniform(-3, 3)) * u.s
+        r.sample_rate = new_rate
+        r.start_time = new_start
+    rate = exact.hz(new_rate)
+    L = fx.length
+    ctx.describe_case({"fixture": fx.name, "relabelled": True, "rate": str(new_rate)})
+    for k in sorted(set([0, 1, L // 2, L - 1, L] + [int(v) for v in rng.integers(0, L + 1, size=3)])):
+        ctx.count("oracle[positions_relabelled]")
+        t, exc = ctx.call(o, r.time_at, k)
+        if exc is not None:
+            continue
+        d = exact.time_diff_s(t, new_start) - F(k) / rate
+        if abs(d) > exact.time_tol(F(k) / rate, 2):
+            ctx.violation(o, f"{fx.name}: after sample_rate/start_time were reassigned, time_at({k}) is {float(d * rate):+.4g} samples off "
+                             "the assigned start + k / assigned rate", None, {"what": "time_at_after_setter"})
+        k2, exc = ctx.call(o, r.offset_at, t)
+        if exc is None and k2 != k:
+            ctx.violation(o, f"{fx.name}: after the setters, offset_at(time_at({k})) = {k2}", None, {"what": "round_trip_after_setter"})
+        q, exc = ctx.call(o, r.time_at, k, unit=u.s)
+        if exc is None:
+            k3, exc = ctx.call(o, r.offset_at, q)
+            if exc is None and k3 != k:
+                ctx.violation(o, f"{fx.name}: after the setters, offset_at(time_at({k}, unit=s)) = {k3}", None, {"what": "round_trip_relative_after_setter"})
+        if k < L:
+            n = int(min(L - k, rng.integers(1, 9)))
+            sg, exc = ctx.call(o, r.read, k, n, where="read after setters")
+            if exc is None:
+                if exact.hz(sg.sample_rate) != rate:
+                    ctx.violation(o, f"{fx.name}: read() after the setters carries sample_rate {sg.sample_rate}, assigned {new_rate}", None,
+                                  {"what": "read_rate_after_setter"})
+                dd = exact.time_diff_s(sg.start_time, new_start) - F(k) / rate
+                if abs(dd) > exact.time_tol(F(k) / rate, 2):
+                    ctx.violation(o, f"{fx.name}: read({k}, {n}).start_time is {float(dd * rate):+.4g} samples off after the setters", None,
+                                  {"what": "read_start_after_setter"})
+    sp, exc = ctx.call(o, lambda: r.stop_time)
+    if exc is None:
+        d = exact.time_diff_s(sp, new_start) - F(L) / rate
+        if abs(d) > exact.time_tol(F(L) / rate, 2):
+            ctx.violation(o, f"{fx.name}: stop_time is {float(d * rate):+.4g} samples off after the setters", None, {"what": "stop_time_after_setter"})
+    ctx.bucket("relabelled", fx.name)
+    del r
+    gc.collect()
 
 
 def quiet_dependency_warnings():
